@@ -4,7 +4,7 @@
     Models: Model/GitChanges.v (internal/git/changes.go) and Model/GitBranch.v (internal/discovery/git_branch.go),
     both as of the current tree (after fix commits a826206, 4412e3a, 4dd7734, d9e7954). *)
 From Coq Require Import List String Ascii ZArith NArith Bool Lia Permutation.
-From PintV Require Import Common.Bytes Gen.Tables Model.GitBranch Proofs.C03_match Proofs.C03_state Proofs.C03_sort Proofs.C03_added Proofs.C03_merge.
+From PintV Require Import Common.Bytes Gen.Tables Model.GitBranch Proofs.C03_match Proofs.C03_state Proofs.C03_sort Proofs.C03_added Proofs.C03_merge Proofs.C03_final.
 From PintV Require Model.GitChanges Proofs.C03_changes Proofs.C03_unquote Proofs.C03_faithful.
 Import ListNotations.
 Open Scope string_scope.
@@ -99,6 +99,42 @@ Proof.
     rewrite <- Hdst, <- E1. exact Hnone.
 Qed.
 Print Assumptions C03_changes_bodies_fork_and_head.
+
+(** Consequently the two rule lists GitBranchFinder.Find compares for a change ([change_in_of]: readRules on Body.Before
+    under Path.Before.Name, readRules on Body.After under Path.After.Name; [parse] = the parser, an input) are, for every
+    record of every faithful history: the rules of the ORIGIN file AS IT WAS AT THE FORK POINT (nothing for a file created on
+    the branch) and the rules of the file AS IT IS AT HEAD (nothing for a deletion) -- whatever happened in between
+    (renames, edit-then-revert, delete and re-add, the base branch moving on). *)
+Theorem C03_compared_versions_are_fork_and_head :
+  forall (n : nat) (snap : nat -> string -> option N) (cidx : string -> nat) (log : list GC.entry)
+         (type_at : string -> string -> GC.ptype) (body_at : string -> string -> N)
+         (body_lines : N -> N) (blame : string -> string -> list (string * Z * Z))
+         (parse : N -> string -> list entry),
+    PF.log_faithful n snap cidx log ->
+    (forall e, In e log -> forall p, type_at (GC.parent (GC.le_commit e)) p = GC.Missing <-> snap (PF.idx cidx e - 1) p = None) ->
+    (forall e, In e log -> forall p, body_at (GC.parent (GC.le_commit e)) p = enc (snap (PF.idx cidx e - 1) p) /\
+                                     body_at (GC.le_commit e) p = enc (snap (PF.idx cidx e) p)) ->
+    forall p k ch, p <> "" ->
+      PC.nth_by_path (GC.fold_log type_at (fun _ => true) (fun _ => false) log) p k = Some ch ->
+      let ci := change_in_of body_lines parse (GC.finalise type_at body_at body_lines blame ch) in
+      (GC.ch_before ch <> "" -> ci_before ci = parse (enc (snap 0 (GC.ch_before ch))) (GC.ch_before ch)) /\
+      (GC.ch_before ch = "" -> ci_before ci = parse 0%N "") /\
+      (GC.ch_status ch <> GC.st "D" -> ci_after ci = parse (enc (snap n p)) p) /\
+      (GC.ch_status ch = GC.st "D" -> ci_after ci = parse 0%N p).
+Proof.
+  intros n snap cidx log type_at body_at body_lines blame parse LF TF BF p k ch Hp Hget.
+  pose proof (C03_changes_bodies_fork_and_head n snap cidx log type_at body_at body_lines blame LF TF BF p k ch Hp Hget) as H.
+  cbv zeta in H. destruct H as (Hb & Ha & Hd).
+  pose proof (PC.nth_by_path_after _ _ _ _ Hget) as Hafter.
+  cbv zeta. unfold change_in_of. cbn [ci_before ci_after].
+  assert (Ec : GC.f_change (GC.finalise type_at body_at body_lines blame ch) = ch) by reflexivity.
+  rewrite Ec, Hafter. split; [|split; [|split]].
+  - intro Hne. rewrite (proj1 (Hb Hne)). reflexivity.
+  - intro He. unfold GC.finalise. cbn [GC.f_body_before]. rewrite He. reflexivity.
+  - intro Hs. rewrite (proj2 (Ha Hs)). reflexivity.
+  - intro Hs. rewrite (proj1 (Hd Hs)). reflexivity.
+Qed.
+Print Assumptions C03_compared_versions_are_fork_and_head.
 
 (** every change of every log carries at least one commit (Commits[0] and the last commit exist) *)
 Theorem C03_changes_have_commits :
@@ -242,6 +278,35 @@ Theorem C03_merge_sound : forall (glob branch : list entry),
   (forall e, In e branch -> e_state e = Removed -> exists e', In e' (merge glob branch) /\ strip e' = strip e).
 Proof. intros glob branch. split; [intros i g; apply merge_nth | intros e; apply merge_removed_kept]. Qed.
 Print Assumptions C03_merge_sound.
+
+(** ** 6. The converse at full strength, end to end over GitBranchFinder.Find (state assignment of EVERY change of the
+    branch + merge into the glob list), possible since fixes 4412e3a (identical rules are paired first) and a826206
+    (disabled checks compared as sorted lists): take any rule [g] of the HEAD tree as GlobFinder lists it (state Noop).
+    If every HEAD entry of every change that sits at [g]'s path and position is untouched by the branch -- the base
+    version of its file holds at least as many rules with its content as the HEAD version, each of them at the same
+    path and under the same set of disabled checks (in any order) -- then [g] is still Noop in the list `pint ci` lints,
+    at the same position, whatever else the branch did (other rules added, modified, deleted, re-ordered, same names
+    re-used, other files renamed or deleted).  In particular rules of files the branch never touched stay Noop. *)
+Theorem C03_untouched_final_noop : forall (glob : list entry) (cs : list change_in) (i : nat) (g : entry),
+  nth_error glob i = Some g -> e_state g = Noop ->
+  (forall c a, In c cs -> In a (ci_after c) -> e_path a = e_path g -> is_same a g = true ->
+     e_name a <> "" /\
+     (count_id a (ci_after c) <= count_id a (ci_before c))%nat /\
+     (forall b, In b (ci_before c) -> is_identical a b = true ->
+        e_path b = e_path a /\ Permutation (e_disabled b) (e_disabled a))) ->
+  exists g', nth_error (find glob cs) i = Some g' /\ strip g' = strip g /\ e_state g' = Noop.
+Proof. exact untouched_final_noop. Qed.
+Print Assumptions C03_untouched_final_noop.
+
+(** ... and no glob entry ever takes a state from anywhere else: its final State/ModifiedLines are its own, or exactly those
+    the state switch computed for a HEAD entry of some change with the same path and the same rule position. *)
+Theorem C03_final_state_origin : forall (glob : list entry) (cs : list change_in) (i : nat) (g : entry),
+  nth_error glob i = Some g ->
+  exists g', nth_error (find glob cs) i = Some g' /\ strip g' = strip g /\
+    (g' = g \/ exists c a s ml, In c cs /\ In a (ci_after c) /\ In (set_state a s ml) (change_entries c) /\
+                 e_path a = e_path g /\ is_same a g = true /\ e_state g' = s /\ e_mod g' = ml).
+Proof. exact final_state_origin. Qed.
+Print Assumptions C03_final_state_origin.
 
 (** ** Non-vacuity: the design-session witness base [Foo:X], HEAD [Foo:Z; Foo:X] is now classified correctly
     (new rule Added, untouched rule Noop); a reordered file/disable list keeps Noop; a renamed file gives Moved. *)
